@@ -570,6 +570,7 @@ def summarize_scenarios(w: PolWorld, branch):
 
                 def agg(*pos, **named):
                     _calls.append(("group_by.agg", names, list(named) + [repr(x) for x in pos]))
+                    _calls.append(("agg-exprs", dict(named), None))
                     return frame(names + list(named))
 
                 g.attrs = {"agg": Native(agg, "groupby.agg")}
@@ -584,7 +585,20 @@ def summarize_scenarios(w: PolWorld, branch):
 
         a = w.col("a", uid["a"])
         val = w.fn(w.op("sum", w.F.AGGREGATE), [a])
+        captured = {}
+
+        def agg_capture(d, _c=captured):
+            _c.update(d)
+
         nd = p.new("tree.verbs", "Summarize", child=None, name="t", names=["s"], values=[val], uuids=["U.s"])
+        if groups:
+            # an aggregate combined with a grouping column outside the aggregate (`sum(a) + h`): per group the grouping column
+            # is one value - the compiled expression must reduce it to a scalar (`.first()`), a pure aggregate needs no reduction
+            hcol = w.col("h", uid["h"])
+            mixed = w.fn(w.op("add", w.F.ELEMENT_WISE), [w.fn(w.op("sum", w.F.AGGREGATE), [a]), hcol])
+            mixed.attrs["_ftype"] = w.F.AGGREGATE
+            val.attrs["_ftype"] = w.F.AGGREGATE
+            nd = p.new("tree.verbs", "Summarize", child=None, name="t", names=["s", "m"], values=[val, mixed], uuids=["U.s", "U.m"])
         local = {"nd": nd, "df": frame(cols), "name_in_df": {u: n for n, u in uid.items()}, "select": [uid[n] for n in cols], "partition_by": [uid[g] for g in groups]}
         env = ChainMap(local, w.env)
         try:
@@ -592,9 +606,17 @@ def summarize_scenarios(w: PolWorld, branch):
         except PyRaise as e:
             out.append((f"summarize, {label}", False, f"the Polars Summarize branch raises {e.name}: {e.msg} for a table {label}"))
             continue
+        exprs = next((c_[1] for c_ in calls if c_[0] == "agg-exprs"), {})
+        calls[:] = [c_ for c_ in calls if c_[0] != "agg-exprs"]
         if groups:
-            ok = len(calls) == 1 and calls[0][0] == "group_by.agg" and calls[0][1] == groups and calls[0][2] == ["s"]
-            want = f"group_by({groups}).agg(s=..)"
+            ok = len(calls) == 1 and calls[0][0] == "group_by.agg" and calls[0][1] == groups and calls[0][2] == ["s", "m"]
+            want = f"group_by({groups}).agg(s=.., m=..)"
+            def _top_first(t_):
+                return isinstance(t_, Term) and t_.fn.split(".")[-1] == "first"
+            m_ok = _top_first(exprs.get("m")) and not _top_first(exprs.get("s"))
+            out.append((f"summarize, {label}: an aggregate combined with a grouping column is reduced to one value per group", m_ok,
+                        f"Polars summarize of a table {label}: `sum(a) + h` compiles to {str(exprs.get('m'))[:140]} and `sum(a)` to {str(exprs.get('s'))[:80]}; "
+                        "an expression that reaches a column outside an aggregate must end in `.first()` (else the result is a list per group), a pure aggregate must not"))  # fmt: skip
         else:
             ok = len(calls) == 1 and calls[0][0] == "select" and calls[0][2] == ["s"]
             want = "select(s=..) (one row)"
@@ -603,7 +625,7 @@ def summarize_scenarios(w: PolWorld, branch):
         pb = local.get("partition_by")
         out.append((f"summarize, {label}: the result is not grouped", list(pb or []) == [], f"after summarize the Polars compiler still carries the grouping {pb}"))
         nm = local.get("name_in_df") or {}
-        want_nm = {uid[g]: g for g in groups} | {"U.s": "s"}
+        want_nm = {uid[g]: g for g in groups} | {"U.s": "s"} | ({"U.m": "m"} if groups else {})
         out.append((f"summarize, {label}: name map = grouping columns + aggregates", dict(nm) == want_nm,
                     f"after summarize of a table {label} the name map is {dict(nm)}, documented {want_nm}"))  # fmt: skip
     return out
